@@ -6,6 +6,7 @@ import (
 	"bytes"
 	"crypto/sha256"
 	"fmt"
+	tsstypes "github.com/teleport-network/teleport/x/xibc/clients/tss-client/types"
 	"math/big"
 	"sort"
 	"strconv"
@@ -62,6 +63,8 @@ func TestC04(t *testing.T) {
 	r.MinNontrivial(r.N(120, 6000))
 }
 
+const tssDst = "tss-chain"
+
 func runHistory(r *core.Run, cid string, L int) {
 	rng := r.Rng(cid)
 	s, err := pkt.NewSim(rng, pkt.Config{Chains: 3, Users: 3, Relayers: 2, Tokens: 2, Native: true})
@@ -72,6 +75,12 @@ func runHistory(r *core.Run, cid string, L int) {
 	m := &mon{r: r, cid: cid, s: s, next: map[string]uint64{}, open: map[string]map[uint64][]byte{}, dsts: map[string]bool{"no-such-chain": true}, multi: map[string]common.Address{}}
 	for _, n := range s.W.Nodes {
 		m.dsts[n.Name] = true
+		// a counterparty this chain follows with a TSS client (no proofs are verified for it): sends to it are sends like any other
+		if err := n.App.XIBCKeeper.ClientKeeper.CreateClient(n.Ctx(), tssDst, &tsstypes.ClientState{TssAddress: s.W.Relayers[0].Bech32()}, &tsstypes.ConsensusState{}); err != nil {
+			r.Inconclusive("%s: cannot create the TSS client: %v", cid, err)
+			return
+		}
+		s.W.Roll(n)
 	}
 	m.checkAll("init")
 	// before anything was sent (all counters at 1): a PacketSent log naming ANOTHER chain as source, for every path
@@ -163,7 +172,7 @@ func (m *mon) observeSend(src *core.Node, what string, o *pkt.Obs, spec pkt.Send
 			m.r.Violation(m.cid, "events/undecodable-PacketSent", map[string]interface{}{"bytes": core.Hex(raw)})
 			continue
 		}
-		if dn := m.s.W.ByName[p.DstChain]; dn == nil || dn == src {
+		if dn := m.s.W.ByName[p.DstChain]; p.DstChain != tssDst && (dn == nil || dn == src) {
 			m.r.Violation(m.cid, "send/accepted-for-a-destination-without-client", map[string]interface{}{"destination": p.DstChain, "chain": src.Name, "what": what})
 		}
 		k := key(src, p.DstChain)
@@ -269,8 +278,14 @@ func (m *mon) validSend() {
 	// several sends in the same block: do not roll
 	n := 1 + m.s.Rng.Intn(3)
 	for i := 0; i < n; i++ {
+		what := "valid"
+		if m.s.Rng.Intn(5) == 0 {
+			// a call-only packet to the TSS-followed counterparty
+			sp = pkt.SendSpec{Src: sp.Src, Dst: sp.Src, DstName: tssDst, User: sp.User, Call: pkt.CallSpec{Kind: "raw", Contract: "0x0000000000000000000000000000000000000001", Data: []byte{1}}}
+			what = "valid-to-tss-followed-chain"
+		}
 		o, _ := m.sendRaw(sp)
-		m.observeSend(sp.Src, "valid", o, sp)
+		m.observeSend(sp.Src, what, o, sp)
 		sp = m.s.RandSendSpec([]string{"counter", ""})
 	}
 }
